@@ -147,7 +147,7 @@ func (g *aspGen) common(t AspType, d int) (ex, bool) {
 		e := g.bin(op, p, a, b)
 		e.fresh = false
 		e.nonASCII = a.nonASCII || b.nonASCII
-		e.fold = a.fold || b.fold || a.constLit || b.constLit
+		e.fold, e.cpart = a.fold || b.fold, a.cpart || b.cpart
 		g.markAliased(a)
 		g.markAliased(b)
 		g.feat("and_or_value")
